@@ -1,0 +1,48 @@
+//! Hooks used by the deterministic-simulation harness.
+//!
+//! Compiled only with `--cfg wtransport_verif`; none of this exists in a normal build.
+
+use std::cell::Cell;
+
+pub use crate::driver::utils::bichannel;
+pub use crate::driver::utils::shared_result;
+pub use crate::driver::utils::BiChannelEndpoint;
+pub use crate::driver::utils::SendError;
+pub use crate::driver::utils::SharedResultGet;
+pub use crate::driver::utils::SharedResultSet;
+pub use crate::driver::utils::TrySendError;
+
+pub use wtransport_proto::verif::torn_reads;
+
+thread_local! {
+    static LOOP_ITERS: Cell<u64> = const { Cell::new(0) };
+    static READ_CAP: Cell<usize> = const { Cell::new(0) };
+}
+
+/// Number of iterations of the driver worker select-loop executed on this thread.
+pub fn loop_iters() -> u64 {
+    LOOP_ITERS.with(|c| c.get())
+}
+
+#[inline]
+pub(crate) fn loop_iter() {
+    LOOP_ITERS.with(|c| c.set(c.get() + 1));
+}
+
+/// Sets the maximum number of bytes a single internal (protocol-level) stream
+/// read returns on this thread. `0` disables the cap. Short reads are always legal.
+pub fn set_read_cap(cap: usize) {
+    READ_CAP.with(|c| c.set(cap));
+}
+
+#[inline]
+pub(crate) fn read_cap() -> usize {
+    READ_CAP.with(|c| c.get())
+}
+
+/// Resets all the probe counters of this thread.
+pub fn reset() {
+    LOOP_ITERS.with(|c| c.set(0));
+    READ_CAP.with(|c| c.set(0));
+    wtransport_proto::verif::reset();
+}
